@@ -22,7 +22,8 @@ sys.path.insert(0, os.path.dirname(os.path.dirname(os.path.abspath(__file__))))
 import logging  # noqa: E402
 logging.disable(logging.CRITICAL)
 
-from pbsym import ctx  # noqa: E402
+from pbsym import ctx, loader  # noqa: E402
+loader.install(SRC)
 
 
 def parse_invocation(message, fname):
@@ -71,6 +72,25 @@ def parse_invocation(message, fname):
         return {'__unparsed__': s[:end], '__error__': repr(ex)}
 
 
+def _fast_format():
+    """CrossHair routes every str.format through a pure-Python formatter (about 10 ms a call under tracing).  When the
+    template and all arguments are plain concrete ints/strs/bools/None the native formatter gives the identical
+    result, so use it; anything symbolic still takes CrossHair's path."""
+    import crosshair.core as core
+    from crosshair.tracers import NoTracing
+    orig = core._PATCH_REGISTRATIONS.get(str.format)
+    if orig is None:
+        return
+    plain = (int, str, bool, type(None))
+
+    def fast(self, /, *a, **kw):
+        with NoTracing():
+            if type(self) is str and all(type(x) in plain for x in a) and all(type(x) in plain for x in kw.values()):
+                return str.format(self, *a, **kw)
+        return orig(self, *a, **kw)
+    core._PATCH_REGISTRATIONS[str.format] = fast
+
+
 def main():
     modname, condname, spec = sys.argv[1], sys.argv[2], json.loads(sys.argv[3])
     ctx.SHARD = spec.get('shard') or {}
@@ -104,6 +124,7 @@ def main():
     from crosshair.core_and_libs import analyze_function, run_checkables, MessageType
     from crosshair.options import AnalysisOptionSet
 
+    _fast_format()
     mod = importlib.import_module(modname)
     fn = getattr(mod, condname)
     ctx.CURRENT_FN = fn
